@@ -22,6 +22,9 @@ CHECKS = {
  'C08': dict(tech='TLA+ step-machine model of both verifiers over input shapes (VerifierRobust.tla) + framing alphabet (Framing.tla), exhaustive in TLC; every shape and mutation replayed on real decoders/verifiers',
              text='TLC explores every combination of variable-length-part lengths (0..4 / 0..10) against the key on the transcribed step lists (no out-of-range access, inconsistent shapes end in an error) and enumerates every framing mutation of the encodings; all are applied to real proofs/witnesses (direct, compressed and raw encodings) and the real decode/verify outcome must be error or acceptance, never a panic or crash.',
              note='Content-level corruption inside a point encoding is sampled by bit flips; arbitrary byte strings are covered structurally, not by coverage-guided fuzzing. Allocation-bomb prefixes run under ulimit -v 8GB.', ref='6 C08'),
+ 'C09': dict(tech='TLA+ pipeline spec (Artifacts.tla) enumerated by TLC; every pipeline with encode/decode round trips replayed on the real encoders/decoders, provers and verifiers',
+             text='TLC enumerates every Compile-Setup-Prove-Verify pipeline in which up to two of constraint system, proving key, verifying key, proof and witness go through a round trip in any offered encoding (compressed, raw, dump, unsafe read, JSON); each is replayed on the real code: reported byte counts, byte-identical re-encoding, identical solution of the decoded system, proofs made with decoded artifacts verify and the original proof verifies under decoded keys.',
+             note='14 circuits covering the instruction kinds; cross-version compatibility is out of scope.', ref='6 C09'),
  'C10': dict(tech='TLA+ concurrency model of the shared lookup-blueprint cache and option slice (SharedCS.tla), exhaustive in TLC; every schedule replayed deterministically on the real solver through build-tag gates; stress/history differential (and -race in thorough)',
              text='TLC explores all interleavings of 2 concurrent Solve calls on one lookup-table system at statement and at gate granularity and the option-slice append design; all 224 gate-level schedules are replayed on the real code with a blocking-hook scheduler and the entries each caller really reads are compared with the model and with its own table; nbTasks sweep, call histories and concurrent Solve/Prove/Verify sharing cs, pk, vk, proofs and an option slice with spare capacity are compared with sequential results.',
              note='Known open finding F5 (shared lookup cache) is reproduced deterministically and reported as KNOWN-FINDING; shared state outside the modelled objects is only seen by the stress differential / race detector.', ref='6 C10'),
